@@ -17,7 +17,8 @@
      abs st               the byte list of every buffer = concatenation of [m_first, m_last) of
                           its blocks, front block first (written out in c15_abs below)            *)
 From OlaBase Require Import Bytes.
-From C15 Require Import Model Spec Sender ProofsBlock Proofs ProofsSender ProofsStream ProofsWrap Cross ProofsCross.
+From C15 Require Import Model Spec Sender ProofsBlock Proofs ProofsSender ProofsStream ProofsWrap Cross ProofsCross
+  ProofsHetero Multi MultiSpec ProofsMulti.
 Local Open Scope nat_scope.
 
 (* what "the bytes a buffer holds" means concretely *)
@@ -222,6 +223,90 @@ Theorem c15_crosspool_refuted :
             cross_acct_ok c = false /\ c_allocB_purged c = 4294967294%N.
 Proof. exact crosspool_refuted. Qed.
 Print Assumptions c15_crosspool_refuted.
+
+(* ================================================================== round 4 ===================
+   SEVERAL POOLS (Multi.v / MultiSpec.v).  init2 bss qp sp: one MemoryBlockPool per entry of bss
+   (its block size), one IOQueue per entry of qp and one IOStack per entry of sp, each bound to
+   the pool whose index the entry gives.  step2 / run2 are the block-level model in which every
+   method works against the buffer's OWN pool and AppendMove / MoveToIOQueue move blocks between
+   buffers whatever their pools; blocks keep their own capacity, so free lists and buffers hold
+   blocks of mixed capacities.  multi_ok: block sizes >= 1, pool indices exist, every operation
+   names existing buffers, no self-AppendMove, no Purge (op_ok2).  The specification is the SAME
+   byte-list specification arun as for one pool: it does not know about pools. *)
+
+(* Conservation over any number of pools.  For EVERY history: no hazard, and the byte-list
+   specification makes the same steps with the same outputs (abs2 commutes with every operation):
+   bytes come out as they went in, in order, consumed at most once, also when the blocks that
+   carry them were allocated by another pool, recycled through a foreign free list, or have a
+   different size than the pool's nominal one.  (c15_ledger applies to arun unchanged: Size =
+   written - consumed.) *)
+Theorem c15_multi_refines : forall bss qp sp ops,
+  multi_ok bss qp sp ops ->
+  exists st outs, run2 (init2 bss qp sp) ops = Ok (st, outs) /\
+                  arun (ainit (length qp) (length sp)) ops = (abs2 st, map out_abs outs).
+Proof. exact multi_refines. Qed.
+Print Assumptions c15_multi_refines.
+
+(* The accounting that IS true of the code.  After every history: blocks allocated summed over
+   all pools = free blocks summed over all pools + blocks held by all buffers (nothing leaks,
+   nothing is double-counted); and for EACH pool k
+       BlocksAllocated_k + migrated_k = FreeBlocks_k + blocks held by the buffers bound to k
+   where migrated_k (mig_run) is the number of blocks the move operations of the history carried
+   into buffers of pool k minus those they carried out of them - so the per-pool counters drift
+   by exactly the blocks that migrated, and the one-pool clause allocated = free + held holds
+   for every pool exactly when nothing migrated (c15_crosspool_refuted is the case -2 / +2).
+   Every block on every free list is reset and in shape. *)
+Theorem c15_multi_accounting : forall bss qp sp ops st outs,
+  multi_ok bss qp sp ops -> run2 (init2 bss qp sp) ops = Ok (st, outs) ->
+  total_alloc st = total_free st + total_held st /\
+  (forall k, k < length bss ->
+     (Z.of_nat (alloc2 st k) + mig_run (init2 bss qp sp) ops k =
+      Z.of_nat (free2 st k) + Z.of_nat (held2 st k))%Z) /\
+  (forall p b, In p (m_pools st) -> In b (p_free p) ->
+     b_first b = 0 /\ b_last b = 0 /\ length (b_data b) = b_cap b /\ 1 <= b_cap b).
+Proof. exact multi_accounting. Qed.
+Print Assumptions c15_multi_accounting.
+
+(* Size, iovec and block shape over several pools: after every history Size() of every buffer is
+   the length of its specified content, AsIOVec exports one non-empty vector per block whose
+   concatenation is the content, and every held block is non-empty and within its own capacity. *)
+Theorem c15_multi_buffers : forall bss qp sp ops st outs,
+  multi_ok bss qp sp ops -> run2 (init2 bss qp sp) ops = Ok (st, outs) ->
+  (forall i, i < length qp ->
+     buf_size (blk (m_q st) i) = length (geta (a_q (fst (arun (ainit (length qp) (length sp)) ops))) i) /\
+     exists v, buf_iovec (blk (m_q st) i) = Ok v /\ length v = length (blk (m_q st) i) /\
+               Forall (fun s => s <> []) v /\
+               concat v = geta (a_q (fst (arun (ainit (length qp) (length sp)) ops))) i) /\
+  (forall j, j < length sp ->
+     buf_size (blk (m_s st) j) = length (geta (a_s (fst (arun (ainit (length qp) (length sp)) ops))) j) /\
+     exists v, buf_iovec (blk (m_s st) j) = Ok v /\ length v = length (blk (m_s st) j) /\
+               Forall (fun s => s <> []) v /\
+               concat v = geta (a_s (fst (arun (ainit (length qp) (length sp)) ops))) j) /\
+  (forall kb b, In kb (m_q st ++ m_s st) -> In b (snd kb) ->
+     b_first b < b_last b /\ b_last b <= b_cap b /\ length (b_data b) = b_cap b).
+Proof. exact multi_buffers. Qed.
+Print Assumptions c15_multi_buffers.
+
+(* non-vacuity: pools of 4- and 8-byte blocks, queue 0 on pool 0, queue 1 and stack 0 on pool 1;
+   two 4-byte-pool blocks migrate into pool 1, are recycled through its free list and re-used by
+   a later write on queue 1 (which then spans blocks of capacity 4, 4 and 8) *)
+Definition ex_mops : list op :=
+  [QWrite 0 [1;2;3;4;5;6]%N; QAppendMove 1 0; QRead 1 16;
+   QWrite 1 [11;12;13;14;15;16;17;18;19;20]%N; QIOVec 1; SWrite 0 [30;31]%N; SMove 0 1; QRead 1 99].
+
+Example ex_mok : multi_ok [4; 8] [0; 1] [1] ex_mops.
+Proof.
+  unfold multi_ok, ex_mops, op_ok2. cbn [length]. repeat split; repeat constructor; try lia; discriminate.
+Qed.
+
+Example ex_mrun :
+  exists st, run2 (init2 [4; 8] [0; 1] [1]) ex_mops =
+    Ok (st, [ONone; ONone; OBytes [1;2;3;4;5;6]%N; ONone;
+             OVec [[11;12;13;14]; [15;16;17;18]; [19;20]]%N; ONone; ONone;
+             OBytes [11;12;13;14;15;16;17;18;19;20;30;31]%N]) /\
+    (alloc2 st 0, free2 st 0, held2 st 0, mig_run (init2 [4; 8] [0; 1] [1]) ex_mops 0) = (2, 0, 0, (-2)%Z) /\
+    (alloc2 st 1, free2 st 1, held2 st 1, mig_run (init2 [4; 8] [0; 1] [1]) ex_mops 1) = (2, 4, 0, 2%Z).
+Proof. eexists. vm_compute. repeat split. Qed.
 
 (* ------------------------------------------------------------------ non-vacuity *)
 (* a history that satisfies every hypothesis above and exercises block boundaries, a stack to
